@@ -39,6 +39,7 @@ inductive V where
   | fn (name kind : String)                       -- a catalogue callable
   | ty (name : String)                            -- a class object
   | vars (id : Nat)                               -- a ScopeVars object
+  | stream (xs : List V)                          -- a generator: the items it yields once it is consumed
   deriving Repr, Inhabited, BEq
 
 /-- a raised exception: its class (MRO via `Prims.isSub`) -/
@@ -99,6 +100,7 @@ inductive Spec where
   | not (c : Spec)
   | switch (cases : List (Spec × Spec)) (dflt : Option Spec)
   | probe (id : Nat)                              -- harness object recording scope[MODE]
+  | iter (sub : Spec) (viaMap : Bool)             -- Iter(sub) / Iter().map(sub): a lazily evaluated stream
   deriving Repr, Inhabited
 
 inductive Ev where
@@ -622,6 +624,18 @@ def glomit (p : Prims) (rec : Rec σ) (spec : Spec) (target : V) (sc : σ) : M (
   | .probe id => do
     M.logEv (.probe id (mode sc))
     pure (target, sc)
+  | .iter sub viaMap => do
+    -- `Iter.glomit` returns a generator that captures `scope` (the Iter object's own frame, which
+    -- holds the MODE copied at creation); when a later step consumes it, every item is evaluated
+    -- by `scope[glom](item, sub, scope)`.  Values are immutable here and the captured frame keeps
+    -- its mode and bindings, so the items are computed at the creation site, in the creation
+    -- site's scope — the lexical reading of "everything nested inside the wrapper" — and the
+    -- consumer (`list`, `tuple`, iteration) forces the `stream` value.  `Iter(sub)` drops SKIP and
+    -- ends at STOP like a list spec (`_iterate`); `Iter().map(sub)` yields every result (`imap`).
+    let items ← M.lift (p.iterate target)
+    let vs ← (if viaMap then zipLoop rec sc items (List.replicate items.length sub) []
+              else listLoop rec sub sc items [])
+    pure (.stream vs, sc)
   | _ => M.fail "Unsupported"
 
 /-- `_ArgValuator.mode`: containers rebuilt, everything else literal -/
